@@ -559,20 +559,26 @@ inductive Bound where
   | unb
   deriving DecidableEq, Repr
 
+/-- the start bound as an index (`Excluded(x)` = `x.checked_add(1).expect(..)`) -/
+def Bound.startE : Bound → Except Panic Nat
+  | .incl x => .ok x
+  | .excl x => (match checkedAdd x 1 with
+      | some v => .ok v
+      | none => .error (.doc "range_start_overflow"))
+  | .unb => .ok 0
+
+/-- the end bound as an index (`Included(x)` = `x.checked_add(1).expect(..)`) -/
+def Bound.endE (len : Nat) : Bound → Except Panic Nat
+  | .incl x => (match checkedAdd x 1 with
+      | some v => .ok v
+      | none => .error (.doc "range_end_overflow"))
+  | .excl x => .ok x
+  | .unb => .ok len
+
 def translateRange (sb eb : Bound) : M (Nat × Nat) := do
   let b ← getBuf
-  let start ← match sb with
-    | .incl x => pure x
-    | .excl x => (match checkedAdd x 1 with
-        | some v => pure v
-        | none => raise (.doc "range_start_overflow"))
-    | .unb => pure 0
-  let «end» ← match eb with
-    | .incl x => (match checkedAdd x 1 with
-        | some v => pure v
-        | none => raise (.doc "range_end_overflow"))
-    | .excl x => pure x
-    | .unb => pure b.size
+  let start ← liftE sb.startE
+  let «end» ← liftE (eb.endE b.size)
   if «end» ≤ b.size then pure () else raise (.doc "range_end")
   if start ≤ «end» then pure () else raise (.doc "range_order")
   pure (start, «end»)
